@@ -530,6 +530,59 @@ func banners() {
 			}
 		}
 	}
+	// images of more than 2^22 pixels, converted repeatedly with many workers: another work-splitting scheme may
+	// take over at such sizes, and a scheme that hands out work dynamically can go wrong only now and then
+	for _, typ := range []string{"YCbCr", "NRGBA", "RGBA64"} {
+		for _, g := range [][2]int{{512, 8200}, {2050, 2048}} {
+			helper := map[string]string{"YCbCr": "NRGBA", "NRGBA": "RGBA64", "RGBA64": "RGBA"}[typ]
+			if g[0] == 2050 {
+				helper = map[string]string{"YCbCr": "RGBA64", "NRGBA": "RGBA", "RGBA64": "NRGBA"}[typ]
+			}
+			s := img.Spec{Type: typ, Ratio: 2, Rect: [4]int{0, 0, g[0], g[1]}, Parent: [4]int{0, 0, g[0], g[1]}, Fill: "ramp", Seed: 1}
+			b := img.Build(s)
+			reps := ev.Pick(10, 60)
+			if typ == "YCbCr" {
+				reps = ev.Pick(24, 120)
+			}
+			var first []byte
+			for r := 0; r < reps; r++ {
+				par := []int{16, 8, 13, 32}[r%4]
+				var o image.Image
+				if pn, msg := ev.Guard(func() {
+					switch helper {
+					case "NRGBA":
+						o = prism.ConvertImageToNRGBA(b.Img, par)
+					case "RGBA":
+						o = prism.ConvertImageToRGBA(b.Img, par)
+					default:
+						o = prism.ConvertImageToRGBA64(b.Img, par)
+					}
+				}); pn {
+					ev.Violation("convert", helper+"/panic", msg, Case{Src: s, Helper: helper, Par: par})
+					break
+				}
+				gp, _, _ := pix(o)
+				n++
+				if r == 0 {
+					// the first result is checked against draw.Draw by the ordinary check, the others against it
+					if kd, wh, _ := check(Case{Src: s, Helper: helper, Par: 1}); kd != "" && !bad[helper+kd] {
+						bad[helper+kd] = true
+						ev.Violation("convert", helper+"/"+kd, wh, Case{Src: s, Helper: helper, Par: 1})
+					}
+					ref := prismSeq(b.Img, helper)
+					first = ref
+				}
+				if !bytes.Equal(gp, first) {
+					k := 0
+					for k < len(gp) && k < len(first) && gp[k] == first[k] {
+						k++
+					}
+					ev.Violation("convert", helper+"/parallel-differs", fmt.Sprintf("ConvertImageTo%s(%s %dx%d, parallelism %d), run %d: result differs from the parallelism-1 result at byte %d", helper, typ, g[0], g[1], par, r+1, k), Case{Src: s, Helper: helper, Par: par})
+					break
+				}
+			}
+		}
+	}
 	// ... and columns taller than 2^16 rows (16-bit row counters, per-row tables)
 	for ti, typ := range img.Types {
 		for hi, h := range []int{65537, 70001} {
@@ -547,4 +600,19 @@ func banners() {
 	ev.Eval(n)
 	ev.NTAdd(n)
 	ev.Class("banners", n)
+}
+
+// prismSeq converts with parallelism 1 and returns the pixel bytes.
+func prismSeq(m image.Image, helper string) []byte {
+	var o image.Image
+	switch helper {
+	case "NRGBA":
+		o = prism.ConvertImageToNRGBA(m, 1)
+	case "RGBA":
+		o = prism.ConvertImageToRGBA(m, 1)
+	default:
+		o = prism.ConvertImageToRGBA64(m, 1)
+	}
+	p, _, _ := pix(o)
+	return append([]byte(nil), p...)
 }
